@@ -41,6 +41,8 @@ type runSpec struct {
 	Cls    string `json:"cls"`
 	Key    string `json:"key"`
 	Expect string `json:"expect"`
+	// a wrong key RELATED to the right symmetric key K: <<octets of K kept, zero octets appended, seeded octets appended>>
+	Kform [3]int `json:"kform"`
 }
 
 type joseCase struct {
@@ -62,6 +64,14 @@ type joseCase struct {
 	Sigsearch int       `json:"sigsearch"`
 	Bits      string    `json:"bits"`
 	Runs      []runSpec `json:"runs"`
+	// value classes: the last Tailrun octets of the payload have the value Tailval; Padvalue: the PKCS #7 octet the
+	// content cipher appends to a plaintext of this size (0: no padding involved); Keyvar "tz": the second half of
+	// the symmetric key is zero octets
+	Pcls     string `json:"pcls"`
+	Tailval  int    `json:"tailval"`
+	Tailrun  int    `json:"tailrun"`
+	Padvalue int    `json:"padvalue"`
+	Keyvar   string `json:"keyvar"`
 	// JWK cases
 	Variant     string   `json:"variant"`
 	Private     bool     `json:"private"`
@@ -124,8 +134,8 @@ func one(c *rp.Ctx, kr *keyring, i int, raw json.RawMessage) (r rp.Result) {
 	// the random choices of a case depend on its content, not on its position (isolated re-runs agree)
 	// (of its abstract content: vcheck re-marshals a case when it re-runs it alone)
 	h := 0
-	for _, b := range []byte(fmt.Sprintf("%s|%s|%s|%s|%s|%d|%d|%s|%s|%s|%v", cs.Kind, cs.Alg, cs.Enc, cs.Zip, cs.Keykind,
-		cs.Size, cs.Aad, cs.Profile, cs.Form, cs.Variant, cs.Private)) {
+	for _, b := range []byte(fmt.Sprintf("%s|%s|%s|%s|%s|%d|%d|%s|%s|%s|%v|%s|%s", cs.Kind, cs.Alg, cs.Enc, cs.Zip, cs.Keykind,
+		cs.Size, cs.Aad, cs.Profile, cs.Form, cs.Variant, cs.Private, cs.Pcls, cs.Keyvar)) {
 		h = (h*131 + int(b)) % 1000003
 	}
 	rng := rand.New(rand.NewSource(int64(c.Seed)*1000003 + int64(h)))
@@ -406,6 +416,8 @@ func flipsFor(cs *joseCase, r runSpec, field []byte, rng *rand.Rand) []flip {
 
 func deviationOf(cs *joseCase, r runSpec, acceptedTamper bool) string {
 	switch {
+	case acceptedTamper && r.Tamper == "none" && r.Kform != [3]int{}:
+		return "C16/key-resized"
 	case acceptedTamper && r.Tamper == "aad":
 		return "C16/aad-not-authenticated"
 	case acceptedTamper && r.Tamper == "protected" && r.Cls == "case":
@@ -414,6 +426,15 @@ func deviationOf(cs *joseCase, r runSpec, acceptedTamper bool) string {
 		return "C16/empty-plaintext-rejected"
 	}
 	return ""
+}
+
+// tailNote says what the payload ended in when it came back shorter.
+func tailNote(cs *joseCase, got, want []byte) string {
+	if cs.Tailrun == 0 || len(got) >= len(want) {
+		return ""
+	}
+	return fmt.Sprintf(" (%d of %d octets; payload class %s: the last %d octets are %#02x, PKCS #7 pads this length with %#02x)",
+		len(got), len(want), cs.Pcls, cs.Tailrun, cs.Tailval, cs.Padvalue)
 }
 
 func describe(cs *joseCase) string {
@@ -451,7 +472,28 @@ type info struct {
 
 func replayObject(c *rp.Ctx, kr *keyring, cs *joseCase, salt int, rng *rand.Rand) rp.Result {
 	k1, k2, names := kr.pair(cs.Keykind, salt)
+	if cs.Keyvar == "tz" {
+		// the object's key ends in zero octets (its second half): a prefix of it is the key without trailing zeros
+		sym, ok := k1.([]byte)
+		if !ok {
+			rp.Bug("key variant tz on a %s key", cs.Keykind)
+		}
+		tz := append([]byte(nil), sym...)
+		for i := len(tz) / 2; i < len(tz); i++ {
+			tz[i] = 0
+		}
+		k1, names[0] = tz, names[0]+"-tz"
+	}
 	payload := ld.FillBytes(cs.Size, 16, c.Seed+salt) // size 0: an empty, non-nil slice
+	if cs.Tailrun > 0 {
+		// payload content class of the specification: the last Tailrun octets have the value Tailval
+		if cs.Tailrun > cs.Size || cs.Tailval < 0 || cs.Tailval > 255 {
+			rp.Bug("tail %d x %#02x on a %d byte payload", cs.Tailrun, cs.Tailval, cs.Size)
+		}
+		for i := cs.Size - cs.Tailrun; i < cs.Size; i++ {
+			payload[i] = byte(cs.Tailval)
+		}
+	}
 	if cs.Size == 4096 {
 		// the size class 4096 stands for a highly redundant payload (deflates by far more than 10:1):
 		// what matters for the compressed variants is the ratio, not the length
@@ -469,8 +511,12 @@ func replayObject(c *rp.Ctx, kr *keyring, cs *joseCase, salt int, rng *rand.Rand
 	// a named deviation is claimed only if EVERY failure of the case is that deviation
 	dev, nfail := "", 0
 	headline := ""
+	devHint := "" // set by a comparison that recognises a named deviation in what it observes
 	fail := func(r runSpec, accepted bool, format string, a ...interface{}) {
 		d := deviationOf(cs, r, accepted)
+		if devHint != "" {
+			d, devHint = devHint, ""
+		}
 		if nfail == 0 {
 			dev = d
 			// the first 60 characters of What are vcheck's failure class (one isolated re-run per class, not per case)
@@ -575,10 +621,27 @@ func replayObject(c *rp.Ctx, kr *keyring, cs *joseCase, salt int, rng *rand.Rand
 		return finish()
 	}
 
-	verifyKey := func(choice string) interface{} {
+	verifyKey := func(r runSpec) interface{} {
 		k := k1
-		if choice == "other" {
+		if r.Key == "other" {
 			k = k2
+		} else if r.Key != "same" {
+			// a wrong key related to the right one, built as the specification says (RelForm)
+			sym, ok := k1.([]byte)
+			keep, zeros, more := r.Kform[0], r.Kform[1], r.Kform[2]
+			if !ok || keep < 0 || keep > len(sym) || zeros < 0 || more < 0 || (keep == len(sym) && zeros+more == 0) {
+				rp.Bug("run %+v on a %s key", r, cs.Keykind)
+			}
+			rel := append([]byte(nil), sym[:keep]...)
+			rel = append(rel, make([]byte, zeros)...)
+			if more > 0 {
+				ext := ld.FillBytes(more, 83, c.Seed+salt)
+				if ext[more-1] == 0 {
+					ext[more-1] = 0xa5
+				}
+				rel = append(rel, ext...)
+			}
+			k = rel
 		}
 		if cs.Kind == "jws" {
 			return public(k)
@@ -588,7 +651,7 @@ func replayObject(c *rp.Ctx, kr *keyring, cs *joseCase, salt int, rng *rand.Rand
 
 	for _, r := range cs.Runs {
 		inf.Runs++
-		key := verifyKey(r.Key)
+		key := verifyKey(r)
 		if r.Expect != "ok" && r.Expect != "error" {
 			rp.Bug("run %+v: the specification does not decide the outcome", r)
 		}
@@ -602,7 +665,10 @@ func replayObject(c *rp.Ctx, kr *keyring, cs *joseCase, salt int, rng *rand.Rand
 				fail(r, false, "untampered object with the right key is rejected (%s: %v)", o.stage, o.err)
 			case r.Expect == "ok":
 				if !bytes.Equal(o.payload, payload) {
-					fail(r, false, "untampered object opens to a different payload: %s", rp.FirstDiff(o.payload, payload))
+					if cs.Padvalue > 0 && len(o.payload) < len(payload) && bytes.HasPrefix(payload, o.payload) && payload[len(payload)-1] == byte(cs.Padvalue) {
+						devHint = "C16/unpad-greedy" // the tail of the payload went with the padding
+					}
+					fail(r, false, "untampered object opens to a different payload%s: %s", tailNote(cs, o.payload, payload), rp.FirstDiff(o.payload, payload))
 				}
 				if cs.Kind == "jwe" && !bytes.Equal(o.aad, aad) {
 					fail(r, false, "untampered object reports different authenticated data: %s", rp.FirstDiff(o.aad, aad))
@@ -634,6 +700,9 @@ func replayObject(c *rp.Ctx, kr *keyring, cs *joseCase, salt int, rng *rand.Rand
 				if o3 := open(cs.Kind, ser.with("protected", pb), key); o3.err != nil || o3.panicked != "" || !bytes.Equal(o3.payload, payload) {
 					rp.Bug("%s: identity re-serialization does not open: %v %s", what, o3.err, o3.panicked)
 				}
+			case r.Expect == "error" && o.err == nil && r.Key != "other":
+				fail(r, true, "untampered object opens with ANOTHER key: the first %d octets of the %d octet key %s, then %d zero octets, then %d more octets (%s)",
+					r.Kform[0], len(k1.([]byte)), names[0], r.Kform[1], r.Kform[2], r.Key)
 			case r.Expect == "error" && o.err == nil:
 				fail(r, true, "untampered object opens with ANOTHER key of the same kind (%s instead of %s)", names[1], names[0])
 			}
